@@ -24,6 +24,12 @@ def programs(tier, seed):
     items.append(("trivial-ad", "0.3::a; 0.4::b. query(a). query(b)."))
     items.append(("det-true", "a. query(a)."))
     items.append(("det-false", "0.5::b. a :- b, \\+b. query(a)."))
+    # tautologies and contradictions the grounder does not simplify, queried through positive and negative literals
+    items.append(("hidden-tautology-neg-query", "0.3::a. 0.4::b. t :- a, b. t :- \\+a. t :- \\+b. query(\\+t). query(t). query(a)."))
+    items.append(("hidden-tautology-derived", "0.3::a. 0.4::b. t :- a, b. t :- \\+a. t :- \\+b. nt :- \\+t. query(nt). query(a)."))
+    items.append(("hidden-tautology-evidence", "0.3::a. 0.4::b. t :- a, b. t :- \\+a. t :- \\+b. nt :- \\+t. u :- nt. u :- a. evidence(t). query(u). query(nt)."))
+    items.append(("hidden-contradiction", "0.3::a. 0.4::b. c :- a, \\+a. c :- b, \\+b, a. nc :- \\+c. query(c). query(nc). query(\\+c). query(b)."))
+    items.append(("hidden-tautology-one-atom", "0.3::a. t :- a. t :- \\+a. nt :- \\+t. query(nt). query(\\+t). query(t)."))
     items.append(("query-absent-literal", "0.5::b. 0.5::c. a :- b. query(a). query(c). evidence(b,false)."))
     # the same compilation path with deterministic atoms kept in the ground program (keep_all)
     extra = []
